@@ -156,25 +156,35 @@ def witness_search(prop, unit_names, tier, seed, only_prop=True):
     iters = 200 if tier == 'quick' else 3000
     stats = []
     if any(u.startswith('wrappers') or u in ('keys', 'registry') for u in unit_names):
-        # macro level: decorated functions driven through the real macros against uncached twins / counters / predicate logs
+        # macro level: decorated functions driven through the real macros against uncached twins / counters / predicate logs,
+        # random macro-level histories with key listing (capacity, victims, invalidation), random registry histories
         out = os.path.join(WORK, 'replays', '%s.macro.witness' % prop)
         # C01 ('never a value stored for other arguments') is also witnessed by a C02 collision
         mprops = [prop] + (['C02'] if prop == 'C01' else [])
-        try:
-            for mp in mprops:
-                cmd = [REPLAY_BIN, '--macro-search', '--prop', mp, '--seed', str(seed or 1), '--out', out]
-                p = subprocess.run(cmd, capture_output=True, text=True, timeout=120)
+        hist_iters = '60' if tier == 'quick' else '600'
+        reg_iters = '300' if tier == 'quick' else '20000'
+        modes = [(['--macro-search'], 'MACRO-SEARCHED', 'see the replay file', 120)]
+        if any(u.startswith('wrappers') for u in unit_names):
+            modes.append((['--macro-history', '--iters', hist_iters], 'MACRO-HISTORY', '%s --macro-history-replay %s' % (REPLAY_BIN, out), 300))
+        if 'registry' in unit_names:
+            modes.append((['--registry-search', '--iters', reg_iters], 'REGISTRY-SEARCHED', '%s --registry-replay %s' % (REPLAY_BIN, out), 120))
+        for mode, tag, how, tmo in modes:
+            try:
+                for mp in mprops:
+                    cmd = [REPLAY_BIN] + mode + ['--prop', mp, '--seed', str(seed or 1), '--out', out]
+                    p = subprocess.run(cmd, capture_output=True, text=True, timeout=tmo)
+                    if p.returncode == 1:
+                        break
+                lines = [l for l in p.stdout.splitlines() if l.startswith('WITNESS') or l.startswith(tag)]
+                stats += ['macro: %s' % l for l in lines]
                 if p.returncode == 1:
-                    break
-            lines = [l for l in p.stdout.splitlines() if l.startswith('WITNESS') or l.startswith('MACRO-SEARCHED')]
-            stats += ['macro: %s' % l for l in lines]
-            if p.returncode == 1:
-                w = [l for l in lines if l.startswith('WITNESS')]
-                return dict(cmd='see the replay: line below', history=out, line=w[0] if w else '', text=open(out).read() if os.path.exists(out) else '', stats=stats)
-        except subprocess.TimeoutExpired:
-            stats.append('macro: timed out')
+                    w = [l for l in lines if l.startswith('WITNESS')]
+                    return dict(cmd=how, history=out, line=w[0] if w else '', text=open(out).read() if os.path.exists(out) else '', stats=stats)
+            except subprocess.TimeoutExpired:
+                stats.append('macro: %s timed out' % mode[0])
         if not flavours:
-            return dict(none=True, stats=stats, bound='20 macro-level scenarios (adversarial argument tuples, scripted Ok/Err, predicate scripts, manual polling) on functions decorated with the real macros')
+            return dict(none=True, stats=stats, bound='macro-level scenarios (adversarial argument tuples of every built-in key shape, scripted Ok/Err, predicate scripts, manual polling) on functions decorated with the real macros; '
+                        '%s random macro-level histories per configuration (global/async x 6 policies x limit {2,3}, <= 14 operations, 6 keys, key listing after every step); %s random registry histories (<= 16 operations)' % (hist_iters, reg_iters))
     for fl in flavours:
         out = os.path.join(WORK, 'replays', '%s.%s.history' % (prop, fl))
         cmd = [REPLAY_BIN, '--search', '--flavour', fl, '--iters', str(iters), '--seed', str(seed or 1), '--out', out]
